@@ -5,6 +5,8 @@ from fractions import Fraction
 from . import cooc_common as cc
 
 PROP = "C03"
+# kernels regenerated from /repo's source (tools/py2lean.py) vs the hand model, exhaustive small scope, inside Lean
+TWIN_CHECKS = [{"op": "twin.window_exhaustive", "n": 5}]
 RULE = ("random corpora (0-6 sequences, lengths 0-30, vocabulary 1-8, incl. [['a','a','a']] and empty sequences) for "
         "the token, timed, multiset and n-gram co-occurrence vectorizers x window radii 0-5 x orientations "
         "before/after/directional (1-3 declared windows) x fixed/variable radii x flat/harmonic/geometric kernels x "
